@@ -1,4 +1,4 @@
-//! Unit osc (C17), bit-precise part: noise source for every seed; phase wrap, saw and square from EVERY
+//! Unit osc (C17), bit-precise part: noise source for every seed; saw and square from EVERY
 //! phase state (hook Phase::verif_from_parts, cfg rustaudio_dasp_verif).  All harnesses are loop-free over
 //! the full symbolic domain: complete, not bounded.
 #![allow(unused)]
@@ -40,10 +40,13 @@ pub mod proofs {
     struct Fixed(f64);
     impl Step for Fixed { fn step(&mut self) -> f64 { self.0 } }
 
-    /// phase wrap, bit-precise: from ANY phase in [0,1) and ANY finite step >= 0 whose sum is finite,
-    /// next_phase yields the current phase and leaves a phase in [0, 1)
+    /// from ANY phase in [0,1) and ANY finite step >= 0, next_phase yields the CURRENT phase bit-for-bit and leaves a phase in
+    /// [0, 1).  CAVEAT (measured): Kani 0.68 / CBMC 6.11 evaluates the f64 `%` operator to 0.0 for every operand (5.5 % 2.0 == 0.0),
+    /// so for an implementation that wraps with `%` — the current one — the range assertion holds trivially and is NOT counted as
+    /// evidence (the wrap is decided by the Verus unit `osc` over exact reals); it is kept because it does decide
+    /// implementations that wrap by other means (casts, subtraction loops), as a round-1 seeded change showed.
     #[kani::proof]
-    pub fn c17_phase_wrap_bits() {
+    pub fn c17_phase_yields_current() {
         let next: f64 = kani::any();
         let step: f64 = kani::any();
         kani::assume(next >= 0.0 && next < 1.0);
@@ -51,36 +54,18 @@ pub mod proofs {
         let mut p = Phase::verif_from_parts(Fixed(step), next);
         let r = p.next_phase();
         assert!(r.to_bits() == next.to_bits());
-        let mut q = p.clone_state();
-        let n2 = q;
+        let n2 = core::mem::replace(&mut p, Phase::verif_from_parts(Fixed(0.0), 0.0)).next_phase();     // the phase left behind
         assert!(n2 >= 0.0 && n2 < 1.0);
         kani::cover!(step > 1.0, "frequency above the rate reachable");
     }
 
-    trait PeekNext { fn clone_state(&mut self) -> f64; }
-    impl PeekNext for Phase<Fixed> {
-        /// the next phase, observed through a zero step
-        fn clone_state(&mut self) -> f64 {
-            // next_phase_wrapped_to returns the stored phase; a huge modulus leaves it unchanged when stepping by 0
-            let s = core::mem::replace(self, Phase::verif_from_parts(Fixed(0.0), 0.0));
-            let mut probe = s;
-            probe.next_phase()
-        }
-    }
-
-    /// the phase starts at 0 and a constant-rate oscillator steps by frequency / rate
+    /// the phase starts at 0 (any finite non-negative frequency; what it becomes after the first step involves `%`: Verus)
     #[kani::proof]
     pub fn c17_phase_starts_at_zero() {
-        // rate: a power of two (a symbolic f64 divisor does not terminate in CBMC; division by 2^k is exact)
         let hz: f64 = kani::any();
         kani::assume(hz >= 0.0 && hz.is_finite());
-        let rate = 4.0f64;
-        let mut p = signal::rate(rate).const_hz(hz).phase();
+        let mut p = signal::rate(4.0).const_hz(hz).phase();
         assert!(p.next_phase() == 0.0);
-        let step = hz * 0.25;
-        let second = p.next_phase();
-        assert!(second.to_bits() == ((0.0 + step) % 1.0).to_bits());
-        assert!(second >= 0.0 && second < 1.0);
     }
 
     /// saw == 1 - 2 * phase within (-1, 1]; square == +1 on the first half-cycle, -1 on the second — from every phase
